@@ -111,6 +111,19 @@ def _gen_delaunay(rng, tier):
                 mesh[j] = src[rng.randrange(len(src))]
             if len({tuple(p) for p in mesh.tolist()}) < npts:
                 continue
+        if k % 5 == 1 and len(src) >= 1:
+            # sub-pixels a hair OUTSIDE the hull (3e-7 .. 8e-7 of the edge length beyond a hull edge: outside the 1e-7 band in which
+            # either reading is accepted, far inside any "generous" point-location tolerance): nearest vertex alone
+            try:
+                from scipy.spatial import ConvexHull
+                hull = ConvexHull(mesh)
+                for j in range(min(3, len(src))):
+                    f = rng.randrange(len(hull.simplices))
+                    a, b = mesh[hull.simplices[f][0]], mesh[hull.simplices[f][1]]
+                    t = rng.uniform(0.2, 0.8)
+                    src[j] = a + t * (b - a) + hull.equations[f, :2] * rng.choice([3e-7, 5e-7, 8e-7]) * float(np.hypot(*(b - a)))
+            except Exception:
+                pass
         # the source plane has no natural unit: the same configuration at 2^-13, 2^-20 (arc-second fractions, radians) and 2^10
         f = 1.0 if rng.random() < 0.7 else float(rng.choice([2.0 ** -13, 2.0 ** -20, 2.0 ** 10]))
         yield {"mask": mask, "sub": sub, "source": src * f, "mesh_points": mesh * f}
